@@ -7,7 +7,7 @@
                     tx       VL [VI version; VL ins; VL outs; VI locktime; VI segwit]          *)
 From Coq Require Import String.
 From V Require Import Base.Prelude Base.Ints Base.Disp Model.Helper Model.Script Model.Tx
-  Model.Fetcher.
+  Model.Fetcher Model.TxStream Model.FetcherNet.
 Open Scope string_scope.
 Open Scope Z_scope.
 
@@ -92,6 +92,111 @@ Fixpoint dec_ops (l : list val) : option (list (bool * bytes * list Z)) :=
       match dec_ops r with Some t => Some ((negb (fresh =? 0), resp, id) :: t) | None => None end
   | _ => None
   end.
+
+Fixpoint dec_net_ops (l : list val) : option (list (bool * bytes * list Z * list Z)) :=
+  match l with
+  | [] => Some []
+  | VL [VI fresh; VB resp; VB id; VB net] :: r =>
+      match dec_net_ops r with Some t => Some ((negb (fresh =? 0), resp, id, net) :: t) | None => None end
+  | _ => None
+  end.
+
+(* a stream position from the wire: small by construction (guarded before Z.to_nat) *)
+Definition dec_stream (data : bytes) (pos : Z) : option stream :=
+  if (pos <? 0) || (zlen data + 64 <? pos) then None
+  else Some {| st_data := data; st_pos := Z.to_nat pos |}.
+Definition enc_stream (st : stream) : list val := [VB (st_rest st); VI (Z.of_nat (st_pos st))].
+
+(* the deepening entry points: Tx.parse at a stream position, back-to-back transactions,
+   parse_hex / clone / Script.parse_hex / + / ==, the fetcher with its network argument *)
+Definition dispatch2 (H : oracle) (fn : list Z) (args : list val) : val :=
+  if fn_is "tx_parse_st" fn then
+    match args with
+    | [VB data; VI pos] =>
+        match dec_stream data pos with
+        | Some st => vres (fun '(t, st') => VL (enc_tx t :: enc_stream st')) (tx_parse_st st)
+        | None => bad_args end
+    | _ => bad_args end
+  else if fn_is "tx_parse_seq" fn then
+    match args with
+    | [VI k; VB data; VI pos] =>
+        match dec_stream data pos with
+        | Some st =>
+            if (k <? 0) || (64 <? k) then bad_args
+            else vres (fun '(ts, st') => VL (VL (map enc_tx ts) :: enc_stream st'))
+                      (tx_parse_seq (Z.to_nat k) st)
+        | None => bad_args end
+    | _ => bad_args end
+  else if fn_is "tx_parse_hex" fn then
+    match args with [VB txt] => vres enc_tx (tx_parse_hex txt) | _ => bad_args end
+  else if fn_is "tx_clone" fn then
+    match args with
+    | [v] => match dec_tx v with
+             | Some t => vres enc_tx (t' <- build_tx t ;; tx_clone t')
+             | None => bad_args end
+    | _ => bad_args end
+  else if fn_is "script_parse_hex" fn then
+    match args with [VB txt] => vres enc_script (script_parse_hex txt) | _ => bad_args end
+  else if fn_is "script_add" fn then
+    match args with
+    | [a; b] =>
+        match dec_script a, dec_script b with
+        | Some x, Some y =>
+            VL [enc_script (script_add x y); vres_b (raw_serialize (script_add x y));
+                vres_b (serialize_script (script_add x y))]
+        | _, _ => bad_args end
+    | _ => bad_args end
+  else if fn_is "script_eq" fn then
+    match args with
+    | [a; b] =>
+        match dec_script a, dec_script b with
+        | Some x, Some y => vbool (script_eqb x y)
+        | _, _ => bad_args end
+    | _ => bad_args end
+  else if fn_is "script_parse_args" fn then
+    match args with
+    | [VL st; VL rw] =>
+        match st, rw with
+        | ([] | [VB _]), ([] | [VB _]) =>
+            let o (l : list val) := match l with [VB b] => Some b | _ => None end in
+            vres (fun '(sc, rest) => VL [enc_script sc; vopt VB rest]) (script_parse_args (o st) (o rw))
+        | _, _ => bad_args end
+    | _ => bad_args end
+  else if fn_is "tx_defaults" fn then
+    (* Tx(version, [TxIn(prev_tx, prev_index) ...], outs).serialize() and its fields *)
+    match args with
+    | [VI ver; VL pts; VL outs] =>
+        let dec_pt (v : val) := match v with VL [VB pt; VI pi] => Some (txin_default pt pi) | _ => None end in
+        match dec_list dec_pt pts, dec_list dec_txout outs with
+        | Some i, Some o =>
+            let t := tx_default ver i o in VL [enc_tx t; vres_b (tx_serialize t)]
+        | _, _ => bad_args end
+    | _ => bad_args end
+  else if fn_is "txin_prevout" fn then
+    (* TxIn(...).value(net), .script_pubkey(net) on an empty cache; the URL requested *)
+    match args with
+    | [v; VB net; VB resp] =>
+        match dec_txin v with
+        | Some i =>
+            match build_txin i with
+            | Err => VL [VErr; VL []]
+            | Ok i' =>
+                let '(_, r, u) := txin_prevout (o_hash256 H) [] i' net resp in
+                VL [vres (fun o => VL [VI (o_amount o); enc_script (o_script o)]) r; vopt VB u]
+            end
+        | None => bad_args end
+    | _ => bad_args end
+  else if fn_is "fetch_net_run" fn then
+    match args with
+    | [VL ops] =>
+        match dec_net_ops ops with
+        | Some o =>
+            VL (VI (zlen o) ::
+                map (fun '(r, u) => VL [vres (fun '(t, n) => VL [enc_tx t; VB n]) r; vopt VB u])
+                    (fetch_net_run (o_hash256 H) [] o))
+        | None => bad_args end
+    | _ => bad_args end
+  else bad_args.
 
 Definition dispatch (H : oracle) (fn : list Z) (args : list val) : val :=
   if fn_is "parse_raw" fn then
@@ -208,4 +313,4 @@ Definition dispatch (H : oracle) (fn : list Z) (args : list val) : val :=
     | _ => bad_args end
   else if fn_is "hexlify" fn then
     match args with [VB b] => VB (hexlify b) | _ => bad_args end
-  else bad_args.
+  else dispatch2 H fn args.
